@@ -13,7 +13,7 @@ SHAPES = {
 
 
 class Controlled:
-    def __init__(self, stale_check=False):
+    def __init__(self, stale_check=False, trace_caching=False):
         import uberjob._execution.run_physical as rp
         import uberjob._execution.run_function_on_graph as rfg
         import uberjob._transformations.caching as caching
@@ -22,9 +22,10 @@ class Controlled:
         self.chooser = None
         self.runs = []
         self.stale_check = stale_check
+        self.extra_files = [caching.__file__] if trace_caching else []
 
     def _rfg(self, graph, fn, *, worker_count=None, max_errors=0, scheduler=None):
-        r = detsched.Run(self.rfg, self.sites, self.chooser)
+        r = detsched.Run(self.rfg, self.sites, self.chooser, extra_files=self.extra_files)
         self.runs.append(r)
         outcome = r.execute(graph, fn, worker_count, max_errors, scheduler)
         if outcome[0] == "raised":
